@@ -4,6 +4,7 @@ package main
 // harnesses only use as plumbing. Each is listed in the evidence (stubs_and_intrinsics).
 
 import (
+	"strings"
 	"go/token"
 	"golang.org/x/tools/go/ssa"
 )
@@ -160,6 +161,36 @@ func init() {
 			out = append(out, ex.strBytes(sv)...)
 			ai++
 			i++
+		}
+		return []Value{ex.mkStr(out)}
+	}
+}
+
+func init() {
+	// strings.ReplaceAll(s, old, new) with a concrete single-byte old: each byte of s is decided
+	// (forks on symbolic bytes) and the result is assembled; the real implementation goes through
+	// strings.Builder (unsafe.String).
+	intrinsics["strings.ReplaceAll"] = func(ex *Exec, st *State, fn *ssa.Function, args []Value, depth int) []Value {
+		s := args[0].(StrV)
+		old, ok1 := args[1].(StrV).Concrete()
+		nw, ok2 := args[2].(StrV).Concrete()
+		if !ok1 || !ok2 || len(old) != 1 {
+			unsupported("strings.ReplaceAll with symbolic or multi-byte pattern")
+		}
+		if sc, ok := s.Concrete(); ok {
+			return []Value{StrV{S: strings.ReplaceAll(sc, old, nw)}}
+		}
+		bs := ex.strBytes(s)
+		var out []*Term
+		oc := ex.byteTerm(old[0])
+		for _, b := range bs {
+			if ex.decide(st, Eq(b, oc)) {
+				for i := 0; i < len(nw); i++ {
+					out = append(out, ex.byteTerm(nw[i]))
+				}
+			} else {
+				out = append(out, b)
+			}
 		}
 		return []Value{ex.mkStr(out)}
 	}
